@@ -200,7 +200,10 @@ def check(tier, seed):
         v.violation('input', {'kind': KIND, 'case': lines[i], 'case_readable': cases[i], 'why': w,
                               'implementation_output': list(impl_out[i]) if not isinstance(impl_out[i], str) else impl_out[i],
                               'stage': 'W (exact rational oracle)'})
-    if not fails:
+    extra = extra_stage(v, tier, rng, impl)
+    for ex in extra[:max(0, 3 - len(fails))]:
+        v.violation('input', ex['payload'])
+    if not fails and not extra:
         if not ok_p:
             v.violation('proof', {'stage': 'P', 'broken_obligation': p_info.get('failing'), 'problems': p_info.get('problems'),
                                   'forbidden_constructs': p_info.get('forbidden'), 'log_tail': p_info.get('log', '')}, no_input=True)
@@ -219,3 +222,62 @@ def oracle(case, line):
         return line
     r = sx.pretty(sx.dec(line))
     return oracle_line(case, tuple(r) if len(r) == 3 and isinstance(r[0], int) else 'UNEXPECTED: %s' % r)
+
+
+def extra_stage(v, tier, rng, impl):
+    """the decision for an object depends on its own module only: groups of cases put into ONE file (one MODULE each, every
+    module with its own compu method of the same name "cm"), one check() - every object must get the decision it gets alone"""
+    base = gen_cases(rng, 'quick')
+    rng.shuffle(base)
+    n_groups = 150 if tier == 'quick' else 20000
+    groups = []
+    for g in range(n_groups):
+        k = rng.choice([2, 2, 3, 4, 6])
+        grp = [rng.choice(base) for _ in range(k)]
+        if g % 3 == 0:
+            # same object kind and data type in every module, different conversions: what a per-file cache would mix up
+            grp = [[grp[0][0], grp[0][1]] + list(c[2:]) for c in grp]
+        groups.append(grp)
+    flat = [c for grp in groups for c in grp]
+    single = fw.run_sharded([impl, 'C12'], [sx.enc(c) for c in flat])
+    multi = fw.run_sharded([impl, 'C12M'], [sx.enc(grp) for grp in groups])
+    found, pos, n_ok, n_mixed = [], 0, 0, 0
+    for grp, line in zip(groups, multi):
+        alone = single[pos:pos + len(grp)]
+        pos += len(grp)
+        if line is None or line.startswith('DIED') or any(a is None or a.startswith('DIED') for a in alone):
+            found.append({'payload': {'kind': 'C12M', 'case': sx.enc(grp), 'case_readable': grp, 'why': 'implementation died',
+                                      'stage': 'W (several modules in one file)'}})
+            continue
+        m = sx.dec(line)
+        a = [sx.dec(x) for x in alone]
+        if m and m[0] == b'UNEXPECTED' or any(x and x[0] == b'UNEXPECTED' for x in a):
+            continue
+        want = [x[0] for x in a]
+        if len({sx.enc(list(c[2:4])) for c in grp}) > 1:
+            n_mixed += 1
+        if list(m) != want:
+            k = next(i for i, (x, y) in enumerate(zip(m, want)) if x != y)
+            if len(found) < 3:
+                found.append({'payload': {'kind': 'C12M', 'case': sx.enc(grp), 'case_readable': grp, 'alone': want, 'together': list(m),
+                                          'why': 'the object of module %d gets %d limit error(s) alone and %d in a file with %d modules' % (k, want[k], m[k], len(grp)),
+                                          'stage': 'W (several modules in one file)'}})
+        else:
+            n_ok += 1
+    v.coverage['multi_module_files'] = len(groups)
+    v.coverage['multi_module_files_with_different_conversions_named_cm'] = n_mixed
+    v.coverage['multi_module_files_ok'] = n_ok
+    return found
+
+
+def replay(r):
+    if r.get('kind') != 'C12M':
+        return None
+    impl = fw.build_harness()
+    grp = sx.dec(r['case'])
+    together = sx.dec(fw.run_single([impl, 'C12M'], r['case']))
+    alone = [sx.dec(fw.run_single([impl, 'C12'], sx.enc(c)))[0] for c in grp]
+    print('cases:', r.get('case_readable'))
+    print('alone:   ', alone)
+    print('together:', list(together))
+    return 0 if list(together) == alone else 1
